@@ -170,6 +170,7 @@ func ruleC08(c *Ctx) {
 	c.rule("C08-R4", "decode targets are fresh and decoded from the verified element (shared with C01-R1/R2): the assertion list returned is exactly what was decoded from signed bytes")
 	checkSchemaTable(c, "C08-R1", schemaTable)
 	decodedImmutable(c, "C08-R6")
+	singleVerification(c, "C08-R7")
 
 	// R2
 	ri := c.kernel("(*SAMLServiceProvider).RetrieveAssertionInfo", retrieveInline...)
@@ -513,4 +514,58 @@ func ruleC20(c *Ctx) {
 			}
 		}
 	}
+}
+
+// singleVerification: acceptance is not narrowed by extra signature checks. On every path of the three inbound validators
+// on which the root's own signature verified, that is the only dsig Validate call and no per-assertion traversal runs
+// (a second verification of content that the root signature already covers rejects genuine messages, e.g. an assertion
+// signed with inclusive c14n inside an exc-c14n Response once it has been re-serialised); on the unsigned-root path the
+// only further verifications are the ones inside the assertion traversal handler.
+func singleVerification(c *Ctx, rule string) {
+	c.rule(rule, "acceptance is not narrowed: once the root signature has verified, no further signature verification or assertion traversal runs on that path (all terminals, accepting or rejecting, of the three inbound validators)")
+	n := 0
+	for _, spec := range []inboundSpec{ssoSpec, loRespSpec, loReqSpec} {
+		res := c.kernel(spec.Entry, inboundInline...)
+		if res == nil {
+			continue
+		}
+		fname := shortFn(res.Root)
+		for _, t := range res.Terms {
+			var vals []*Event
+			for _, e := range t.St.events {
+				if e.Kind == EvCall && shortName(e.Callee) == dsigValidate {
+					vals = append(vals, e)
+				}
+			}
+			if len(vals) == 0 {
+				continue
+			}
+			// did the first (root) verification succeed on this path?
+			root := vals[0]
+			if len(root.Res) < 2 {
+				continue
+			}
+			isNil, known := t.eqFact(root.Res[1], nilOf(root.Res[1].Type()))
+			if !known || !isNil {
+				continue
+			}
+			n++
+			extra := len(vals) - 1
+			trav := 0
+			for _, e := range t.St.events {
+				if e.Kind == EvIterEnter && e.Seq > root.Seq {
+					trav++
+				}
+			}
+			if extra == 0 && trav == 0 {
+				c.ok(rule, fname, "root signature verified => no further verification on the path", c.P.InstrPos(root.Instr), "one dsig Validate, no assertion traversal")
+			} else {
+				o := c.bad(rule, fname, "root signature verified => no further verification on the path", c.P.InstrPos(vals[len(vals)-1].Instr),
+					fmt.Sprintf("after the root signature verified, the path runs %d more signature verification(s) / %d traversal(s): content already covered by the root signature is re-verified after re-serialisation and genuine messages can be rejected", extra, trav))
+				o.Path = t.pathDesc(c.P)
+			}
+		}
+	}
+	c.count(rule+"/signed-root-paths", n)
+	c.floor(rule+"/signed-root-paths", 6)
 }
